@@ -243,7 +243,11 @@ func (b *Billet) traverse(curr Node, path, from []byte, process func(pathToNode 
 		}
 		return b.traverse(r, path, from, process, ignoreStorageErr, backwards)
 	}
-	if len(from) == 0 {
+	// A leaf reached with a part of `from` left has a key that is a proper
+	// prefix of the start point, i.e. it lies before it: a backwards traversal
+	// includes it.
+	_, isLeaf := curr.(*LeafNode)
+	if len(from) == 0 || (backwards && isLeaf) {
 		bytes := bytes.Clone(curr.Bytes())
 		if process(fromNibbles(path), curr, bytes) {
 			return curr, errStop
@@ -320,7 +324,10 @@ func (b *Billet) traverse(curr Node, path, from []byte, process func(pathToNode 
 	case *ExtensionNode:
 		if len(from) != 0 && bytes.HasPrefix(from, n.key) {
 			from = from[len(n.key):]
-		} else if len(from) == 0 || bytes.Compare(n.key, from) > 0 != backwards {
+		} else if len(from) == 0 || bytes.HasPrefix(n.key, from) || bytes.Compare(n.key, from) > 0 != backwards {
+			// Either the subtree is past the start point in the direction of
+			// traversal, or all of its keys have the start point as a prefix
+			// (which belongs to the result in both directions).
 			from = []byte{}
 		} else {
 			return b.tryCollapseExtension(n), nil
